@@ -8,7 +8,7 @@ from . import env as ENV
 from .engine import ENG, SymInt, SymBool, SymReal, T
 
 
-from .concrete import Kit, flat, lincomb_of, ev_concrete, run_concrete
+from .concrete import Kit, flat, lincomb_of, ev_concrete, run_concrete, run_prelude
 
 
 class Trace:
@@ -49,6 +49,7 @@ def run_entry(env, entry, cfg):
         if rt is None:
             res = entry.fn(k)
             return res, ([], [], []), None, None, []
+        run_prelude(env, cfg)
         fn = lambda: entry.fn(k)
         for gn in reversed(gnames):
             fn = (lambda inner, gn=gn: (lambda: rt.guarded(k.G(gn))(inner)()))(fn)
